@@ -1,6 +1,8 @@
 package rules
 
 import (
+	"fmt"
+	"go/types"
 	"sort"
 	"strings"
 
@@ -69,6 +71,8 @@ func sameMapVar(a, b ssa.Value) bool {
 func (c *Ctx) c17IndexAgreement() {
 	r := c.R
 	r.Rule("R17.6", "index -> record key agreement: the ids listed in an id index (an ordered map stored under IndexKey(x), e.g. the admins of an appchain) name records of one collection; every place that walks such an index and builds a storage key from an element uses the key constructor under which the elements' records are written (role records: RoleKey). A walk that deletes / reads under another constructor leaves the real records untouched - a replaced admin keeps its role record and still passes the permission check.")
+	r.Rule("R17.7", "role predicates decide on what they are asked: every predicate of RoleManager (is*/has*/check* returning bool or a Response) lets each of its parameters feed a branch condition or the returned value (through the calls it delegates to); a predicate that ignores the requested role type or id answers true for roles the caller guard was meant to exclude.")
+	c.c17Predicates()
 	type site struct {
 		idx, ctor, pos, fn string
 	}
@@ -252,4 +256,59 @@ func (c *Ctx) c17IndexAgreement() {
 		}
 	}
 	r.Floor("R17.6", "index walks building storage keys", n, 4)
+}
+
+// c17Predicates: R17.7 - an identity / role predicate decides on every one of its parameters.
+func (c *Ctx) c17Predicates() {
+	r := c.R
+	m := c.Contracts()
+	n := 0
+	for _, fn := range m.funcs {
+		if len(fn.Blocks) == 0 || fn.Signature.Results().Len() != 1 || fn.Parent() != nil {
+			continue
+		}
+		rt := fn.Signature.Results().At(0).Type()
+		if b, ok := rt.Underlying().(*types.Basic); (!ok || b.Kind() != types.Bool) && !strings.HasSuffix(rt.String(), "boltvm.Response") {
+			continue
+		}
+		recv := fn.Signature.Recv()
+		if recv == nil || !strings.HasSuffix(recv.Type().String(), "contracts.RoleManager") {
+			continue
+		}
+		ln := strings.ToLower(fn.Name())
+		if !strings.HasPrefix(ln, "is") && !strings.HasPrefix(ln, "has") && !strings.HasPrefix(ln, "check") {
+			continue
+		}
+		params := fn.Params[1:]
+		if len(params) == 0 {
+			continue
+		}
+		// the values the verdict is made of: branch conditions and returned values
+		var deciders []ssa.Value
+		for _, b := range fn.Blocks {
+			if ifi := core.IfOf(b); ifi != nil {
+				deciders = append(deciders, ifi.Cond)
+			}
+		}
+		for _, ret := range core.Returns(fn) {
+			deciders = append(deciders, ret.Results...)
+		}
+		n++
+		var unused []string
+		for _, p := range params {
+			used := false
+			for _, d := range deciders {
+				if core.Mentions(d, func(v ssa.Value) bool { return v == ssa.Value(p) }) {
+					used = true
+					break
+				}
+			}
+			if !used {
+				unused = append(unused, p.Name())
+			}
+		}
+		r.Check(len(unused) == 0, "R17.7", shortFn(fn)+": verdict depends on every parameter", c.P.Pos(fn.Pos()), fmt.Sprintf("%d parameter(s) each feed a branch condition or the returned value", len(params)),
+			"parameter(s) "+strings.Join(unused, ", ")+" of this role predicate feed no branch condition and no returned value: the question the caller asks (which role type, which appchain, which address) is ignored, so the predicate answers true for identities the guard was meant to exclude")
+	}
+	r.Floor("R17.7", "role predicates of RoleManager", n, 2)
 }
